@@ -468,6 +468,17 @@ func (t *transitiveClosure) addElement(
 		}
 
 	case *descriptorpb.DescriptorProto:
+		if typedDescriptor.GetOptions().GetMapEntry() {
+			// A map entry cannot lose its key or value: if the type of one is
+			// excluded, the entry is excluded and the map field goes with it.
+			for _, field := range typedDescriptor.GetField() {
+				typeName := protoreflect.FullName(strings.TrimPrefix(field.GetTypeName(), "."))
+				if info, ok := imageIndex.ByName[typeName]; ok && t.elements[info.element] == inclusionModeExcluded {
+					t.elements[descriptor] = inclusionModeExcluded
+					return nil
+				}
+			}
+		}
 		oneofFieldCounts := make([]int, len(typedDescriptor.GetOneofDecl()))
 		// Options and types for all fields
 		for _, field := range typedDescriptor.GetField() {
@@ -783,6 +794,10 @@ func (t *transitiveClosure) addFieldType(field *descriptorpb.FieldDescriptorProt
 		err := t.addElement(info.element, referrerFile, false, imageIndex, opts)
 		if err != nil {
 			return false, err
+		}
+		if mode := t.elements[info.element]; mode == inclusionModeExcluded {
+			// The field's type turned out to be excluded (a map entry of an excluded type).
+			return false, nil
 		}
 	case descriptorpb.FieldDescriptorProto_TYPE_DOUBLE,
 		descriptorpb.FieldDescriptorProto_TYPE_FLOAT,
